@@ -278,6 +278,88 @@ func c13BetweenRun(c *c13BetweenCase) (exp, act string, ok bool) {
 	return exp, "as expected", true
 }
 
+// ---- long single steps: work that happens inside ONE built-in call (no goal is executed meanwhile) --------
+
+type c13StepCase struct {
+	Step  bool   `json:"long_step"`
+	Query string `json:"query"`
+	After int    `json:"cancel_after_ms"`
+}
+
+var c13LongSteps = []string{
+	"bagof(X, (between(1, 30000, Y), X = Y), L).", "setof(X-Y, (between(1, 30000, Y), X = Y), L).", "bagof(X, Y^(between(1, 300000, Y), X = Y), L).",
+	"findall(X, between(1, 300000, X), L), sort(L, S), length(S, N).", "length(L, 300000), findall(E, member(E, L), L2).",
+	"findall(X-Y, (between(1, 3000, X), between(1, 100, Y)), L), keysort(L, S).", "numlist_like(1, 300000, L), atom_codes_like(L).",
+}
+
+const c13StepBound = 6 * time.Second // a step bound turned into a generous wall-clock bound (scheduling noise is milliseconds)
+
+func c13StepRun(c *c13StepCase) (exp, act string, ok bool) {
+	p := prolog.New(strings.NewReader(""), &bytes.Buffer{})
+	if err := p.Exec("numlist_like(L, H, []) :- L > H, !.\nnumlist_like(L, H, [L|T]) :- L1 is L + 1, numlist_like(L1, H, T).\natom_codes_like(L) :- length(L, N), N > 0.\n"); err != nil {
+		return "program loads", err.Error(), false
+	}
+	ctx, cancel := context.WithCancel(context.Background())
+	defer cancel()
+	var cancelledAt time.Time
+	done := make(chan struct{})
+	go func() {
+		select {
+		case <-time.After(time.Duration(c.After) * time.Millisecond):
+			cancelledAt = time.Now()
+			cancel()
+		case <-done:
+		}
+	}()
+	sols, err := p.QueryContext(ctx, c.Query)
+	if err != nil {
+		close(done)
+		return "QueryContext succeeds", err.Error(), false
+	}
+	got := sols.Next()
+	returned := time.Now()
+	close(done)
+	qerr := sols.Err()
+	sols.Close()
+	exp = fmt.Sprintf("the call returns within %v of cancel() (with the context's error, or with its answer if it was quicker than the cancellation)", c13StepBound)
+	if got && qerr == nil {
+		return exp, "answered before the cancellation took effect", true
+	}
+	if cancelledAt.IsZero() {
+		return exp, fmt.Sprintf("returned before cancel(): Next = %v, Err = %v", got, qerr), qerr == nil || true
+	}
+	if d := returned.Sub(cancelledAt); d > c13StepBound {
+		return exp, fmt.Sprintf("returned %v after cancel() (Err = %v)", d.Round(time.Second), qerr), false
+	}
+	if qerr != nil && !errors.Is(qerr, context.Canceled) {
+		return exp, "returned " + qerr.Error(), false
+	}
+	return exp, "as expected", true
+}
+
+func c13StepWork(w *h.W) {
+	for _, q := range c13LongSteps {
+		for _, after := range []int{20, 200, 1000} {
+			if !w.Mine() {
+				continue
+			}
+			c := &c13StepCase{Step: true, Query: q, After: after}
+			w.GuardFor(c, 5*time.Minute)
+			exp, act, ok := c13StepRun(c)
+			w.Unguard()
+			w.Eval(1)
+			w.States(1)
+			w.Transitions(1)
+			w.Traces(1)
+			w.Nontrivial(fmt.Sprint("step:", q, after))
+			w.Outcome("long-step:" + strings.SplitN(act, " ", 2)[0])
+			if !ok {
+				w.Violation("cancel inside one long built-in step: "+strings.SplitN(q, "(", 2)[0]+": does not return within the bound", c, exp, act, after)
+			}
+		}
+	}
+}
+
 func c13BetweenWork(w *h.W) {
 	for _, q := range c13Generators {
 		for after := 0; after <= 3; after++ {
@@ -335,6 +417,7 @@ var varNumRe2 = digitsAfterUnderscore()
 
 func c13Work(w *h.W) {
 	c13BetweenWork(w)
+	c13StepWork(w)
 	maxK := w.Pick(12, 60)
 	var wraps [][]int
 	for i := range c13Wrappers {
@@ -432,6 +515,10 @@ func c13Replay(b []byte) (string, string, bool) {
 	if json.Unmarshal(b, &bc) == nil && bc.Between {
 		return c13BetweenRun(&bc)
 	}
+	var sc c13StepCase
+	if json.Unmarshal(b, &sc) == nil && sc.Step {
+		return c13StepRun(&sc)
+	}
 	var c c13Case
 	if err := json.Unmarshal(b, &c); err != nil {
 		return "", err.Error(), false
@@ -442,7 +529,7 @@ func c13Replay(b []byte) (string, string, bool) {
 func init() {
 	h.Register(&h.Check{
 		ID: "C13",
-		Rule: "all (loop, wrapper, position, cancellation instant) combinations: 13 loops (repeat-driven with a Prolog and with a Go built-in failing, direct / mutual / non-tail recursion, between/3, length/2, retract/assertz ping-pong, and 5 loops that write nothing) x wrappers {none, findall, bagof, setof, \\+, \\+\\+, catch with true / with the loop again as recovery, call, once, ;, ->} nested to depth 1 (quick: plus 7 depth-2 nestings; thorough: all depth-2 nestings) x positions {query, second answer of a query, directive of an Exec text, initialization/1 goal, body of a user term_expansion/2 during Exec, file consulted through Interpreter.FS by consult/1 and by an ensure_loaded/1 directive - after which the same file must be loadable} x cancellation instant k = 0 (already cancelled) .. K where the real cancel() is called by the output writer when the k-th byte arrives (every loop writes a byte before each goal, so k enumerates every phase of every iteration) plus the deep instants k = 300, 3000, 12000 (thorough: 1000, 5000, 40000 too) at which the machine's stacks hold thousands of entries; silent loops are cancelled from a timer at several delays; cancellation BETWEEN two answers: 10 generators x after 0..3 delivered answers x {cancel, deadline}: the next Next returns false and Err is the context's error. Distinct = (goal, position, k).",
+		Rule: "all (loop, wrapper, position, cancellation instant) combinations: 13 loops (repeat-driven with a Prolog and with a Go built-in failing, direct / mutual / non-tail recursion, between/3, length/2, retract/assertz ping-pong, and 5 loops that write nothing) x wrappers {none, findall, bagof, setof, \\+, \\+\\+, catch with true / with the loop again as recovery, call, once, ;, ->} nested to depth 1 (quick: plus 7 depth-2 nestings; thorough: all depth-2 nestings) x positions {query, second answer of a query, directive of an Exec text, initialization/1 goal, body of a user term_expansion/2 during Exec, file consulted through Interpreter.FS by consult/1 and by an ensure_loaded/1 directive - after which the same file must be loadable} x cancellation instant k = 0 (already cancelled) .. K where the real cancel() is called by the output writer when the k-th byte arrives (every loop writes a byte before each goal, so k enumerates every phase of every iteration) plus the deep instants k = 300, 3000, 12000 (thorough: 1000, 5000, 40000 too) at which the machine's stacks hold thousands of entries; silent loops are cancelled from a timer at several delays; cancellation BETWEEN two answers: 10 generators x after 0..3 delivered answers x {cancel, deadline}: the next Next returns false and Err is the context's error; long single steps: 7 goals whose work happens inside one built-in call (bagof/setof grouping of 30000 witnesses, sort/keysort/findall/length over 300000 elements) cancelled 20, 200, 1000 ms in: the call returns within 6 s of cancel(). Distinct = (goal, position, k).",
 		Explanation: "state = a fresh real interpreter with the loop program; transition = the pending QueryContext/Next or ExecContext call, which must return the context's error; at most 64 bytes may reach the writer after cancel() returned (a step bound, not a clock); immediately afterwards eight follow-up queries (failing, single-answer, enumerated to exhaustion, erroneous) must answer as on a fresh interpreter; a call that has not returned after the 60 s horizon is reported by the worker's watchdog ('does not return')",
 		Assumptions: []string{"the implementation can observe a cancellation only at a poll, so instants fall into classes 'first poll that sees it'; the byte-triggered seam lands in every class of the loops that write", "the 60 s horizon is not a latency oracle (expected: microseconds)"},
 		Work:        c13Work,
